@@ -265,6 +265,13 @@ func c18Missing(want, got []string) string {
 
 // c18Class names the known-finding class a failing look-up belongs to.
 func c18Class(name string, recs []c18Rec, kind string, colon bool, dir string) string {
+	// The recorded finding is about answers that are wrong BECAUSE a ':' inside a name is taken for
+	// a field separator: a YES for name N owed to a record of 'N:...', or a hash / rename field
+	// read at the wrong position. An exact record of a ':' name that is simply not found (with no
+	// hash asked for) is not part of it.
+	if strings.Contains(name, ":") && dir == "false-negative" {
+		return "log-colon-in-name:false-negative" // not a recorded class: reported
+	}
 	if strings.Contains(name, ":") {
 		return "log-colon-in-name"
 	}
